@@ -19,7 +19,13 @@ Templates == <<
   << S("k = 1") \o <<10>> \o S("END") \o <<10>>, S("x") >>,                                \* after END
   << S("k = 1") \o <<10>> \o S("END"), S("x") >>,                                          \* glued to END
   << S("x = 0") \o <<13, 10>> \o S("y = 'q") \o <<10>> \o S("r"), S("' z = 2 END") >>,     \* third line, inside a multi-line string
-  << S("GROUP = g") \o <<10>> \o S("  a = ("), S(", 2)") \o <<10>> \o S("END_GROUP") \o <<10>> \o S("END") >>   \* in a sequence
+  << S("GROUP = g") \o <<10>> \o S("  a = ("), S(", 2)") \o <<10>> \o S("END_GROUP") \o <<10>> \o S("END") >>,  \* in a sequence
+  << S("x = 1") \o <<10>> \o S("GROUP = "), S("g") \o <<10>> \o S("  a = 1") \o <<10>> \o S("END_GROUP") \o <<10>> \o S("y = 2") \o <<10>> \o S("END") >>,   \* before a block name
+  << S("OBJECT "), S("= g") \o <<10>> \o S("  a = 1") \o <<10>> \o S("END_OBJECT") \o <<10>> \o S("END") >>,                      \* before the '=' of a begin statement
+  << S("GROUP = g a = 1 END_GROUP "), S(" b = 2 END") >>,                                                              \* after an end keyword
+  << S("GROUP = g a = 1 END_GROUP = "), S("g b = 2 END") >>,                                                           \* before the name of an end statement
+  << S("a = {1, "), S("2} b = <") >>,                                                                                  \* in a set
+  << S("a = 1 <m> b"), S(" = 2 END") >>                                                                                \* after a name, before '='
 >>
 VARIABLES tpl, cp
 Init == tpl \in 1..Len(Templates) /\ cp \in CodePoints
